@@ -601,6 +601,9 @@ fn scenario_session(sc: &str) -> Result<Violations, String> {
         let mut tr: Vec<String> = vec![];
         if !login.is_empty() { run_cmd(&w, &mut c, &mut rx, login); }
         for cmd in &cmds {
+            // <CR> <TAB> <NBSP> stand for the characters themselves (kept out of the scenario text, which is printed as JSON)
+            let cmd_owned = cmd.replace("<CR>", "\r").replace("<TAB>", "\t").replace("<NBSP>", "\u{a0}");
+            let cmd = &cmd_owned.as_str();
             let sel_before = (c.selected_db_name(), c.selected_db_user_name());
             let out = catch_unwind(AssertUnwindSafe(|| run_cmd(&w, &mut c, &mut rx, cmd)));
             let (r, msgs) = match out { Ok(x) => x, Err(_) => { v.push("C10.safety".into()); return Ok(v); } };
@@ -683,6 +686,9 @@ fn all_session_scenarios() -> Vec<String> {
         for a in DATA_CMDS.iter().chain(ADMIN_CMDS.iter()).chain(RESOLVE_CMDS.iter()) { out.push(format!("{}|{}", l, a)); }
         for k in PERM_KEYS { for c in ["get", "set", "increment", "remove", "watch"] { out.push(format!("{}|{} {}{}", l, c, k, if c == "set" { " v" } else if c == "increment" { " 1" } else { "" })); } }
         for pat in ["keys g*", "keys *e", "keys on", "keys go*"] { out.push(format!("{}|{}", l, pat)); }
+        // a key that merely CONTAINS a secure key's name behind a blank is another key: whatever is done with it tells nothing about, and changes nothing of, the $$ key
+        for padded in ["get <CR>$$secret", "get-safe <TAB>$$secret", "get <NBSP>$$secret", "get $$secret<CR>", "watch <CR>$$secret", "remove <CR>$$secret", "remove <TAB>$$token",
+                       "set <TAB>$$secret hacked", "increment <CR>$$secret 1", "get <CR>$$user_usr"] { out.push(format!("{}|{}", l, padded)); }
         for f in USE_FAIL { for a in ["get secret", "get public1", "set secret x", "keys", "remove sea"] { out.push(format!("{}|{};{}", l, f, a)); } }
         for f in AUTH_FAIL { for a in ["create-db x xt", "get $$secret", "set-permissions usr rwix *", "set $$secret hacked"] { out.push(format!("{}|{};{}", l, f, a)); } }
         // a session that registers itself as arbiter (or watches the conflict channel) gains no right to write
@@ -1109,12 +1115,16 @@ fn scenario_traffic(sc: &str) -> Result<Violations, String> {
     if p[2] == "1" { run_cmd(&w, &mut arbiter, &mut arbrx, "use-db d tok"); run_cmd(&w, &mut arbiter, &mut arbrx, "arbiter"); }
     snapshot_keys(&dbs);
     drain(&mut rrx);
-    let role = match p[0] { "S" => ClusterRole::Secoundary, "P" => ClusterRole::Primary, _ => ClusterRole::StartingUp };
+    // T: a secondary whose member table names NO primary (the window after a lost election, before the winner's set-primary arrives); D: the primary with one more secondary
+    // whose link is dead (its receiver is gone: every try_send on it fails)
+    let role = match p[0] { "S" | "T" => ClusterRole::Secoundary, "P" | "D" => ClusterRole::Primary, _ => ClusterRole::StartingUp };
     let (l1, mut m1): (Sender<String>, Receiver<String>) = channel(1000);
     let (l2, mut m2): (Sender<String>, Receiver<String>) = channel(1000);
     let (lp, mut mp): (Sender<String>, Receiver<String>) = channel(1000);
-    if p[0] != "P" { dbs.add_cluster_member(ClusterMember { name: "p:1".into(), role: ClusterRole::Primary, sender: Some(lp) }); }
-    dbs.add_cluster_member(ClusterMember { name: "me:1".into(), role: if p[0] == "P" { ClusterRole::Primary } else { ClusterRole::Secoundary }, sender: None });
+    let is_p = p[0] == "P" || p[0] == "D";
+    if !is_p && p[0] != "T" { dbs.add_cluster_member(ClusterMember { name: "p:1".into(), role: ClusterRole::Primary, sender: Some(lp) }); }
+    dbs.add_cluster_member(ClusterMember { name: "me:1".into(), role: if is_p { ClusterRole::Primary } else { ClusterRole::Secoundary }, sender: None });
+    if p[0] == "D" { let (ld, dead_rx): (Sender<String>, Receiver<String>) = channel(10); drop(dead_rx); dbs.add_cluster_member(ClusterMember { name: "dead:1".into(), role: ClusterRole::Secoundary, sender: Some(ld) }); }
     dbs.add_cluster_member(ClusterMember { name: "s1:1".into(), role: ClusterRole::Secoundary, sender: Some(l1) });
     dbs.add_cluster_member(ClusterMember { name: "s2:1".into(), role: ClusterRole::Secoundary, sender: Some(l2) });
     dbs.node_state.swap(role as usize, std::sync::atomic::Ordering::Relaxed);
@@ -1136,7 +1146,7 @@ fn scenario_traffic(sc: &str) -> Result<Violations, String> {
     let fwd = drain(&mut mp);
     for l in ["C14.one-line-per-command", "C05.one-line-per-command"] { chk(&mut v, l, queued.len() <= 1); }
     chk(&mut v, "C14.at-most-one-forward-per-write", fwd.len() <= 1);
-    chk(&mut v, "C14.primary-forwards-nothing", p[0] != "P" || fwd.is_empty());
+    chk(&mut v, "C14.primary-forwards-nothing", !is_p || fwd.is_empty());
     if p[3] == "p" { chk(&mut v, "C14.peer-messages-are-not-forwarded", fwd.is_empty()); }
     // a handler never hands anything to the link of a secondary itself: copies leave through the replication thread only
     let direct = drain(&mut m1).len() + drain(&mut m2).len();
@@ -1156,13 +1166,16 @@ fn scenario_traffic(sc: &str) -> Result<Violations, String> {
     }));
     if ok.is_err() { v.push("C10.safety".into()); return Ok(v); }
     let (g1, g2, gp) = (drain(&mut m1).len(), drain(&mut m2).len(), drain(&mut mp).len());
+    // the replication thread only takes lines OFF its queue: whatever it could or could not hand over, it puts nothing back (a re-queued line would be fanned out again, to everybody)
+    let requeued = drain(&mut rrx);
+    for l in ["C14.replication-thread-queues-nothing", "C14.one-copy-per-secondary"] { chk(&mut v, l, requeued.is_empty()); }
     match p[0] {
-        "S" => chk(&mut v, "C14.secondary-never-fans-out", g1 + g2 + gp == 0),
-        "P" => { chk(&mut v, "C14.one-copy-per-secondary", g1 <= queued.len() && g2 <= queued.len()); chk(&mut v, "C14.primary-fans-out-to-secondaries-only", gp == 0); }
+        "S" | "T" => chk(&mut v, "C14.secondary-never-fans-out", g1 + g2 + gp == 0),
+        "P" | "D" => { chk(&mut v, "C14.one-copy-per-secondary", g1 <= queued.len() && g2 <= queued.len()); chk(&mut v, "C14.primary-fans-out-to-secondaries-only", gp == 0); }
         _ => chk(&mut v, "C14.starting-node-copies-once-per-other-member", g1 <= queued.len() && g2 <= queued.len() && gp <= queued.len()),
     }
     // non-vacuity of the wiring: an accepted client write on the primary does reach both secondaries
-    if p[0] == "P" && p[3] == "c" && idx == 0 && !(g1 == 1 && g2 == 1) { return Err("links silent".into()); }
+    if is_p && p[3] == "c" && idx == 0 && !(g1 == 1 && g2 == 1) { return Err("links silent".into()); }
     if p[0] == "S" && p[3] == "c" && idx == 0 && fwd.len() != 1 { return Err("primary link silent".into()); }
     std::mem::forget(arx); std::mem::forget(arbrx);
     Oplog::clean_op_log_metadata_files();
@@ -1170,7 +1183,8 @@ fn scenario_traffic(sc: &str) -> Result<Violations, String> {
 }
 fn all_traffic_scenarios() -> Vec<String> {
     let mut out = vec![];
-    for role in ["S", "P", "U"] { for st in ["none", "newer", "arbiter"] { for arb in ["0", "1"] {
+    for role in ["S", "P", "U", "T", "D"] { for st in ["none", "newer", "arbiter"] { for arb in ["0", "1"] {
+        if (role == "T" || role == "D") && st != "none" { continue; }
         if arb == "1" && st != "arbiter" { continue; }
         for i in 0..TRAFFIC_CLIENT.len() { out.push(format!("{}|{}|{}|c|{}", role, st, arb, i)); }
         for i in 0..TRAFFIC_PEER.len() { out.push(format!("{}|{}|{}|p|{}", role, st, arb, i)); }
